@@ -572,4 +572,3 @@ func wsconcRun(script []string, w *bufio.Writer) {
 		}
 	}
 }
-
